@@ -65,6 +65,17 @@ func init() {
 				if w.Sep.Kind == "altempty" || (taint && w.Sep.Kind == "preset") {
 					w.Sep = SepCfg{Kind: "char", Char: pick(r, taintPool)}
 				}
+				if r.Chance(0.08) {
+					// a word of more than 255 characters: the index cannot be made
+					long := strings.Repeat(pick(r, taintPool), 260+r.Intn(50))
+					if !taint {
+						long = strings.Repeat("x", 300)
+					}
+					w.Words = append(w.Words, long)
+					if r.Bool() {
+						w.Words = []string{long}
+					}
+				}
 				if r.Chance(0.1) {
 					// a caller-written separator function reporting a nonsensical entropy
 					w.Sep = SepCfg{Kind: "weird", Char: pick(r, taintPool), Preset: pick(r, []string{"nan", "neg", "inf"})}
@@ -203,6 +214,11 @@ func (l *leakCtx) checkOp(res OpResult, what string) bool {
 				}
 				// the stored string picked up a trailing newline; the index belongs to a shorter password
 				if _, err := spg.Tokenize(res.P.String()+"\n", ix, res.P.Entropy); err != nil {
+					errText += " " + err.Error()
+				}
+				// an index written by a newer version / damaged in storage: unknown kind byte
+				bad := append([]byte{9}, ix[1:]...)
+				if _, err := spg.Tokenize(res.P.String(), bad, res.P.Entropy); err != nil {
 					errText += " " + err.Error()
 				}
 				if len(ix) > 2 {
